@@ -107,7 +107,7 @@ func (r routecmd) build() []string {
 			// a registration the route commands cannot express is dropped
 			// on its own since the routing table is built from the commands
 			// of all services and a single error there blocks the update
-			if err := validate(cfg); err != nil {
+			if err := validate(cfg, name, route, dst, strings.Join(svctags, ","), strings.Join(ropts, " ")); err != nil {
 				log.Printf("[WARN] consul: Skipping route %q of service %q on %s: %s", tag, name, addr, err)
 				continue
 			}
@@ -118,12 +118,28 @@ func (r routecmd) build() []string {
 	return config
 }
 
-// validate checks that the route table accepts cmd as a single command.
-func validate(cmd string) error {
+// validate checks that the route table accepts cmd as a single command
+// and that the command reads back as the registered service, route and
+// destination with the given tags and options.
+func validate(cmd, svc, src, dst, tags, opts string) error {
 	if strings.ContainsAny(cmd, "\r\n") {
 		return errors.New("route command spans several lines")
 	}
-	_, err := route.NewTable(bytes.NewBufferString(cmd))
+	// a double quote ends the tags or the options of a command: what
+	// follows it would be read as the next clause of the command
+	if strings.Contains(tags, "\"") || strings.Contains(opts, "\"") {
+		return errors.New("tags or options contain a double quote")
+	}
+	// white space in the service name, the route or the destination moves
+	// the arguments of the command
+	defs, err := route.Parse(bytes.NewBufferString(cmd))
+	if err != nil {
+		return err
+	}
+	if len(defs) != 1 || defs[0].Service != svc || defs[0].Src != src || defs[0].Dst != dst {
+		return errors.New("route command does not denote the registered service, route and destination")
+	}
+	_, err = route.NewTable(bytes.NewBufferString(cmd))
 	return err
 }
 
